@@ -122,14 +122,16 @@ class Case:
         self.cells = cfg['cells'] if cfg['mps'] == 'infinite' else 1
         self.infinite = cfg['mps'] == 'infinite'
 
+    scale = 1.0     # all strengths of the real model are multiplied by this power of two (set per option combination)
+
     def expected(self, explicit, stored):
         """Exact matrix a representation must have.  stored: the operator that is stored (G for explicit_plus_hc,
         where H is represented as G + G^dagger); otherwise the represented operator."""
         if not explicit:
-            return self.H
+            return self.H * self.scale
         if stored:
-            return self.G2 / 2
-        return (self.G2 + self.G2.conj().T) / 2
+            return self.G2 / 2 * self.scale
+        return (self.G2 + self.G2.conj().T) / 2 * self.scale
 
 
 def diagnose_exporter(case, M, got, explicit):
@@ -246,16 +248,18 @@ def replay_case(ctx, case, combo, model=None):
     """Build the real model with the representation options `combo` and compare every representation."""
     from tenpy.algorithms import exact_diag as ted
     explicit, conserve, sort_legs = combo['explicit'], combo['conserve'], combo['sort']
+    case.scale = float(combo.get('scale', 1.0)) if model is None else 1.0
     cfg, decls, obs = case.cfg, case.decls, case.obs
     nn = bool(obs['nn']) and (not case.infinite or case.cells >= 2)
-    opts = dict(explicit=explicit, conserve=conserve, sort=sort_legs, ints=bool(combo.get('ints')))
+    opts = dict(explicit=explicit, conserve=conserve, sort=sort_legs, ints=bool(combo.get('ints')), scale=case.scale)
     if not np.any(case.expected(explicit, True)):
         # precondition: tenpy does not build an MPO for a model whose stored terms cancel completely (H = 0)
         ctx.replay_actions['C10.skipped-empty-model'] = ctx.replay_actions.get('C10.skipped-empty-model', 0) + 1
         return None
     try:
         M = model if model is not None else hm.build_model(cfg, decls, explicit_plus_hc=explicit, conserve=conserve, nn=nn,
-                                                          sort_mpo_legs=sort_legs, int_strengths=bool(combo.get('ints')))
+                                                          sort_mpo_legs=sort_legs, int_strengths=bool(combo.get('ints')),
+                                                          scale=case.scale)
         if model is not None:
             nn = nn and hasattr(M, 'H_bond')
     except Exception as e:  # the documented interface accepts every declaration TLC generates
@@ -327,7 +331,7 @@ def replay_case(ctx, case, combo, model=None):
         N = len(sites)
         bonds = obs['bonds']
         for b in range(1, len(bonds) + 1):
-            exp = hm.dense_of_sparse(bonds[b - 1]) / 2
+            exp = hm.dense_of_sparse(bonds[b - 1]) / 2 * case.scale
             rep('H_bond', lambda: hm.bond_matrix(M.H_bond[b % N], sites[(b - 1) % N], sites[b % N]), exp, o=dict(opts, bond=b))
         if not case.infinite:
             def ed_bonds():
@@ -353,13 +357,13 @@ def replay_case(ctx, case, combo, model=None):
         Hb3 = attempt(ctx, case, 'MPOModel.calc_H_bond_from_MPO', opts, plain_mpo_model_bonds)
         if Hb3 is not None:
             for b in range(1, len(bonds) + 1):
-                exp = hm.dense_of_sparse(bonds[b - 1]) / 2
+                exp = hm.dense_of_sparse(bonds[b - 1]) / 2 * case.scale
                 rep('MPOModel.calc_H_bond_from_MPO', lambda: hm.bond_matrix(Hb3[b % N], sites[(b - 1) % N], sites[b % N]), exp,
                     o=dict(opts, bond=b))
         Hb2 = attempt(ctx, case, 'calc_H_bond_from_MPO', opts, M.calc_H_bond_from_MPO)
         if Hb2 is not None:
             for b in range(1, len(bonds) + 1):
-                exp = hm.dense_of_sparse(bonds[b - 1]) / 2
+                exp = hm.dense_of_sparse(bonds[b - 1]) / 2 * case.scale
                 rep('calc_H_bond_from_MPO', lambda: hm.bond_matrix(Hb2[b % N], sites[(b - 1) % N], sites[b % N]), exp,
                     o=dict(opts, bond=b))
     return M
@@ -440,13 +444,15 @@ def replay_options(ctx, case, M, opts):
             order = list(range(0, 2 * n, 2)) + list(range(1, 2 * n, 2))
             D = int(np.prod(dims))
             return np.transpose(T, order).reshape(D, D).astype(complex)
-        rep('extract_segment', segment, hm.dense_of_sparse(seg))
+        rep('extract_segment', segment, hm.dense_of_sparse(seg) * case.scale)
 
 
 def combos_for(ctx, case, key, full=False):
     """Representation options to try for a case: always the plain one, plus seeded others."""
     base = dict(explicit=False, conserve=None, sort=False)
-    others = [dict(explicit=e, conserve=c, sort=s, ints=(_h(key, e, c, s) % 4 == 0)) for e in (False, True)
+    # a third of the variants with all strengths scaled by 2^-12 (couplings below the cutoffs some exporters know)
+    others = [dict(explicit=e, conserve=c, sort=s, ints=(_h(key, e, c, s) % 4 == 0),
+                   scale=(2.0 ** -12 if _h(key, e, c, s, 'scale') % 3 == 0 else 1.0)) for e in (False, True)
               for c in [None] + conserve_options(case, e) for s in (False, True)]
     others = [o for o in others if (o['explicit'], o['conserve'], o['sort']) != (False, None, False)]
     if full:
